@@ -26,6 +26,7 @@ static int nctx;                 // including index 0 = the driving thread's own
 static size_t req_size[MAXCTX];
 static step_t steps[MAXSTEPS + 1];
 static int nsteps, phase2_at = -1, dirty_byte;
+static uint64_t param_base;   // the argument handed to context i is param_base + i (values with bit 31 / high bits set)
 static volatile int step_idx, phase_end;
 
 static fiber_context_t ctx[MAXCTX];
@@ -94,7 +95,8 @@ static void drive(int self);
 __attribute__((no_split_stack))
 #endif
 void* ctx_body(void* param) {
-  int idx = (int)(intptr_t)param;
+  int idx = (int)((uint64_t)(uintptr_t)param - param_base);
+  if ((uint64_t)(uintptr_t)param - param_base >= MAXCTX) fail("entry_arg", "fresh context got argument %p, expected %#llx + its index", param, (unsigned long long)param_base);
   // the values recorded by the stub belong to this fresh context
   entry_rsp[idx & 15] = g_entry_rsp;
   entry_rdi[idx & 15] = g_entry_rdi;
@@ -244,6 +246,8 @@ int main(int argc, char** argv) {
       if (i > 0 && i < MAXCTX) req_size[i] = b;
     } else if (!strcmp(w, "phase2")) {
       if (fscanf(f, "%d", &phase2_at) != 1) return 2;
+    } else if (!strcmp(w, "parambase")) {
+      if (fscanf(f, "%lx", &param_base) != 1) return 2;
     } else if (!strcmp(w, "dirty")) {
       // the fiber_context_t objects live in memory that is not zero (stack slot, recycled heap chunk, reused object)
       if (fscanf(f, "%d", &dirty_byte) != 1) return 2;
@@ -265,7 +269,7 @@ int main(int argc, char** argv) {
   }
   for (int i = 1; i < nctx; i++) {
     cur_init = i;
-    int init_ok = fiber_context_init(&ctx[i], req_size[i], &ctx_entry_stub, (void*)(intptr_t)i) == FIBER_SUCCESS;
+    int init_ok = fiber_context_init(&ctx[i], req_size[i], &ctx_entry_stub, (void*)(uintptr_t)(param_base + (uint64_t)i)) == FIBER_SUCCESS;
     cur_init = 0;
     if (!init_ok) fail("engine", "fiber_context_init(%zu) failed", req_size[i]);
     created[i] = 1;
@@ -293,7 +297,7 @@ int main(int argc, char** argv) {
   // entry checks for every context that was started
   for (int i = 1; i < nctx; i++) {
     if (!started[i]) continue;
-    if (entry_rdi[i] != (uint64_t)i) fail("entry_arg", "context %d started with rdi=0x%llx instead of its argument", i, (unsigned long long)entry_rdi[i]);
+    if (entry_rdi[i] != param_base + (uint64_t)i) fail("entry_arg", "context %d started with rdi=0x%llx instead of its argument 0x%llx", i, (unsigned long long)entry_rdi[i], (unsigned long long)(param_base + (uint64_t)i));
     if ((entry_rsp[i] & 15) != 8) fail("entry_misaligned", "context %d entered its function with rsp=0x%llx (rsp mod 16 = %d, the ABI requires 8)", i, (unsigned long long)entry_rsp[i], (int)(entry_rsp[i] & 15));
     uintptr_t lo = (uintptr_t)stack_base[i], hi = lo + stack_size[i];
     if (entry_rsp[i] <= lo || entry_rsp[i] > hi) fail("stack_clobbered", "context %d entered with rsp=0x%llx outside its own stack [%p,+%zu)", i, (unsigned long long)entry_rsp[i], stack_base[i], stack_size[i]);
